@@ -394,15 +394,28 @@ int __wrap_connect(int fd, const struct sockaddr *a, socklen_t al)
 	ev("connect", fd, 0, -1, errno);
 	return -1;
     }
+    bool unblock = false;
     if (nb_watch && in_lib) {
 	int fl = fcntl(fd, F_GETFL);
 	struct shim_fd *f = get(fd);
-	/* AF_UNIX connect never waits for the peer; only flag stream sockets */
 	if (fl >= 0 && !(fl & O_NONBLOCK) && f && f->domain != AF_UNIX)
 	    wait_seen++;
+	else if (fl >= 0 && !(fl & O_NONBLOCK) && f) {
+	    /* AF_UNIX: a connect in blocking mode waits only while the listener's queue is full: made without waiting here,
+	       it is a wait exactly if it answers EAGAIN */
+	    fcntl(fd, F_SETFL, fl | O_NONBLOCK);
+	    unblock = true;
+	}
     }
     int r = __real_connect(fd, a, al);
     int e = errno;
+    if (unblock) {
+	int fl = fcntl(fd, F_GETFL);
+	if (fl >= 0)
+	    fcntl(fd, F_SETFL, fl & ~O_NONBLOCK);
+	if (r < 0 && e == EAGAIN)
+	    wait_seen++;
+    }
     ev("connect", fd, 0, r, r < 0 ? e : 0);
     errno = e;
     return r;
